@@ -170,7 +170,11 @@ func runC07PathBoundNotQuery(c *Ctx) {
 }
 
 func runC07(c *Ctx) {
+	// clause shared with C15: request-time code never writes into the route's shared template
+	defer c.ImportRules("C15", "C15.1")
 	defer runC07PathBoundNotQuery(c)
+	defer runC07QuoteOnlyWhenUnquoted(c)
+	defer runC07EscapedRequestLineKept(c)
 	p := c.P
 	// clause shared with C11: binding a repeated well-known-type parameter must not panic
 	defer c.ImportRules("C11", "C11.12")
@@ -569,6 +573,30 @@ func runC07(c *Ctx) {
 	c.Rule("C07.6", "query parameters generated inside loops are added, not overwritten", 1)
 	encFn := p.MustFunc("httpEncodePathValues")
 	nQ := 0
+	// functions (helpers, closures) that are called - directly or further down - from inside a
+	// loop of the encoder: a Set in one of them is a Set per element just the same (seed C01k moved
+	// the Add into a helper closure that uses Set)
+	calledInLoop := map[*ssa.Function]bool{}
+	for _, fn := range SortedFuncs(p.Reach(encFn)) {
+		if !p.inScope(fn) {
+			continue
+		}
+		for _, call := range Calls(fn) {
+			if inL, _ := MayReach(fn, call, func(in ssa.Instruction) bool { return in == ssa.Instruction(call) }); !inL {
+				continue
+			}
+			for _, cal := range p.CalleesAt(call) {
+				if !p.inScope(cal) {
+					continue
+				}
+				for f := range p.Reach(cal) {
+					if p.inScope(f) {
+						calledInLoop[f] = true
+					}
+				}
+			}
+		}
+	}
 	for _, fn := range SortedFuncs(p.Reach(encFn)) {
 		if !p.inScope(fn) {
 			continue
@@ -579,6 +607,7 @@ func runC07(c *Ctx) {
 			}
 			nQ++
 			inLoop, _ := MayReach(fn, call, func(in ssa.Instruction) bool { return in == ssa.Instruction(call) })
+			inLoop = inLoop || calledInLoop[fn]
 			isSet := IsCallTo(call, "(net/url.Values).Set")
 			c.Check(!(isSet && inLoop), "C07.6", FuncName(fn), "query-multi-value", call.Pos(),
 				"query values produced in a loop are appended with Add", "url.Values.Set inside a loop: every element of a repeated field overwrites the previous one, the REST backend receives only the last")
@@ -652,5 +681,199 @@ func runC07(c *Ctx) {
 		c.Check(usedBy(needs, s), "C07.4", FuncName(needs), "source:"+s.name, needs.Pos(),
 			"the predicate consults the "+s.name+", which the preparer consumes",
 			"the preparer builds the request message from the "+s.name+" but the needs-preparation predicate never looks at it: a request carrying only that source skips preparation and the source is ignored")
+	}
+}
+
+// runC07QuoteOnlyWhenUnquoted: C07.10 (seed C07i).  A string-typed path or query value is turned
+// into a JSON string before it is unmarshalled into the field.  The value is passed through
+// unquoted only when it already IS a quoted string - it starts AND ends with a double quote -
+// or is empty.  A helper that skips the quoting when just one end carries a quote (`&&` for `||`
+// in the test) hands `"abc` or `abc"` to the JSON codec verbatim: the request is rejected
+// although the same value is perfectly legal in the gRPC / Connect form of the call.  Decided
+// on the paths of every helper that applies strconv.AppendQuote to its []byte parameter: a path
+// that returns without quoting knows the length test failed or saw two byte comparisons with
+// '"' come out equal.
+func runC07QuoteOnlyWhenUnquoted(c *Ctx) {
+	p := c.P
+	c.Rule("C07.10", "a string value is passed through unquoted only when both ends are quotes", 1)
+	n := 0
+	for _, fn := range p.Funcs {
+		if !p.inScope(fn) || len(fn.Params) == 0 || len(fn.Blocks) == 0 {
+			continue
+		}
+		var quoteCalls []ssa.Instruction
+		for _, call := range Calls(fn) {
+			if IsCallTo(call, "strconv.AppendQuote") {
+				quoteCalls = append(quoteCalls, call)
+			}
+		}
+		if len(quoteCalls) == 0 || fn.Signature.Results().Len() != 1 {
+			continue
+		}
+		if _, isSlice := fn.Signature.Results().At(0).Type().Underlying().(*types.Slice); !isSlice {
+			continue
+		}
+		n++
+		paths, ok := EnumPaths(fn.Blocks[0], nil, IsReturn, 0)
+		if !ok {
+			c.Unknown("C07.10", FuncName(fn), "unquoted-only-when-both-ends-quoted", fn.Pos(), "too many paths")
+			continue
+		}
+		bad := 0
+		for _, cp := range paths {
+			quoted := false
+			for _, b := range cp.Blocks {
+				for _, in := range b.Instrs {
+					for _, q := range quoteCalls {
+						if in == q {
+							quoted = true
+						}
+					}
+				}
+			}
+			if quoted {
+				continue
+			}
+			empty, ends := false, map[string]bool{}
+			for cond, truth := range cp.Truth {
+				bo, isB := cond.(*ssa.BinOp)
+				if !isB {
+					continue
+				}
+				x, y := bo.X, bo.Y
+				if k, isK := ConstInt(x); isK {
+					x, y = y, x
+					_ = k
+				}
+				k, isK := ConstInt(y)
+				if !isK {
+					continue
+				}
+				if call, isCall := x.(*ssa.Call); isCall {
+					if b, isBuiltin := call.Call.Value.(*ssa.Builtin); isBuiltin && b.Name() == "len" {
+						// len(raw) > 0 false, len(raw) == 0 true, len(raw) != 0 false ...
+						if k == 0 && ((bo.Op == token.GTR || bo.Op == token.NEQ) && !truth || (bo.Op == token.EQL || bo.Op == token.LEQ) && truth) {
+							empty = true
+						}
+						continue
+					}
+				}
+				if k != '"' {
+					continue
+				}
+				if (bo.Op == token.NEQ && !truth) || (bo.Op == token.EQL && truth) {
+					// which byte?  key by the index expression
+					if u, isU := x.(*ssa.UnOp); isU && u.Op == token.MUL {
+						if ia, isIA := u.X.(*ssa.IndexAddr); isIA {
+							if ik, isIK := ConstInt(ia.Index); isIK {
+								ends["const"+itoa(int(ik))] = true
+							} else {
+								ends["expr"] = true
+							}
+							continue
+						}
+					}
+					ends[x.Name()] = true
+				}
+			}
+			if !empty && len(ends) < 2 {
+				bad++
+			}
+		}
+		c.Check(bad == 0, "C07.10", FuncName(fn), "unquoted-only-when-both-ends-quoted", fn.Pos(),
+			"every path that returns the value unquoted knows it is empty or that its first and its last byte are double quotes",
+			itoa(bad)+" path(s) return the value without quoting it although only one of its ends (or none) was seen to be a double quote: a string parameter such as `\"abc` reaches the JSON codec verbatim and the request is rejected, while the same value is accepted through the other protocols")
+	}
+	if n == 0 {
+		c.Bad("C07.10", "package", "unquoted-only-when-both-ends-quoted", token.NoPos, "no helper quotes a parameter value with strconv.AppendQuote: shape changed")
+	}
+}
+
+// runC07EscapedRequestLineKept: C07.11 (seed C07l).  The request line built for a REST backend is
+// in escaped form; net/http sends URL.RawPath when it is a valid encoding of URL.Path and
+// otherwise re-derives the escaping from Path - and that default leaves ':' (the start of the
+// custom verb under google.api.http), '@', '$', '+', ... unescaped.  So whenever unescaping
+// changes the path at all, the escaped form is kept as RawPath: the store of the escaped path
+// hangs on nothing but 'unescaping succeeded' and 'it differs' - not on a guess which escapes
+// net/url would reproduce (only "%2F").
+func runC07EscapedRequestLineKept(c *Ctx) {
+	p := c.P
+	c.Rule("C07.11", "the escaped request line is kept as RawPath whenever unescaping changes the path", 1)
+	n := 0
+	for _, fn := range p.Funcs {
+		if !p.inScope(fn) {
+			continue
+		}
+		for _, call := range Calls(fn) {
+			if !IsCallTo(call, "net/url.PathUnescape") || call.Value() == nil {
+				continue
+			}
+			var unesc, errV ssa.Value
+			for _, ref := range *call.Value().Referrers() {
+				if ex, ok := ref.(*ssa.Extract); ok {
+					if ex.Index == 0 {
+						unesc = ex
+					} else {
+						errV = ex
+					}
+				}
+			}
+			// stores of a non-constant value into URL.RawPath that this call reaches
+			var stores []*ssa.Store
+			ForEachInstr(fn, func(in ssa.Instruction) {
+				st, ok := in.(*ssa.Store)
+				if !ok {
+					return
+				}
+				fa, ok := st.Addr.(*ssa.FieldAddr)
+				if !ok || FieldOfAddr(fa).Name() != "RawPath" || !isPtrTo(fa.X.Type(), "net/url", "URL") {
+					return
+				}
+				if _, isConst := st.Val.(*ssa.Const); isConst {
+					return
+				}
+				if !call.Block().Dominates(st.Block()) {
+					return
+				}
+				stores = append(stores, st)
+			})
+			if len(stores) == 0 {
+				continue
+			}
+			n++
+			base := map[ssa.Value]bool{}
+			for _, f := range FactsAt(call.Block()) {
+				base[f.Cond] = true
+			}
+			good := false
+			extra := ""
+			for _, st := range stores {
+				only := true
+				for _, f := range FactsAt(st.Block()) {
+					if base[f.Cond] {
+						continue
+					}
+					if cmp, ok := f.AsCmp(); ok {
+						if errV != nil && cmp.X == errV && IsNilConst(cmp.Y) {
+							continue
+						}
+						if unesc != nil && (cmp.X == unesc || cmp.Y == unesc) && (cmp.Op == token.NEQ || cmp.Op == token.EQL) {
+							continue
+						}
+					}
+					only = false
+					extra = f.Cond.String()
+				}
+				if only {
+					good = true
+				}
+			}
+			c.Check(good, "C07.11", FuncName(fn), "escaped-path-kept", call.Pos(),
+				"the escaped path is stored as RawPath under no other condition than 'unescaping succeeded and changed the path'",
+				"the escaped request line is kept as URL.RawPath only under a further condition ("+extra+"): for the other escapes net/http re-derives the path from URL.Path and leaves ':' '@' '+' ... unescaped, so a path-bound value with ':' in its last segment is sent as a custom verb and the REST request no longer parses back to the message it was made from")
+		}
+	}
+	if n == 0 {
+		c.Bad("C07.11", "package", "escaped-path-kept", token.NoPos, "no function unescapes a request path and stores RawPath: shape changed")
 	}
 }
